@@ -152,6 +152,42 @@ def gen_filters(repo):
     out += '(* ds is released on the accepting path / on the rejecting path *)\n'
     out += 'Definition FREE_ON_ACCEPT : bool := %s.\nDefinition FREE_ON_REJECT : bool := %s.\n' % (
         'true' if (in_acc or [p for p in before if p < a0]) else 'false', 'true' if (before or after) else 'false')
+    # ---- which keys the code looks up globally vs. which keys the man page marks "(global)"
+    import glob, os
+    code = {}
+    files = sorted(glob.glob(os.path.join(repo, 'qsmtpd', 'filters', '*.c'))) + [os.path.join(repo, 'qsmtpd', 'commands.c')]
+    for f in files:
+        txt = strip_comments(open(f, encoding='latin-1').read())
+        for fn, key in re.findall(r'\b(getsettingglobal|getsetting)\s*\(\s*&?ds\s*,\s*"([^"]*)"', txt):
+            g = fn == 'getsettingglobal'
+            if key in code and code[key] != g:
+                raise TranslateError('setting %s is looked up both with getsetting and getsettingglobal' % key)
+            code[key] = g
+    if not code:
+        raise TranslateError('no getsetting()/getsettingglobal() call with a literal key found')
+    rel = 'doc/man/filterconf.5'
+    man = read(repo, rel)
+    if '.SH KEYS' not in man:
+        raise TranslateError('%s: section KEYS not found' % rel)
+    keys_sec = man[man.index('.SH KEYS'):]
+    if '.SH EXAMPLES' in keys_sec:
+        keys_sec = keys_sec[:keys_sec.index('.SH EXAMPLES')]
+    doc = {}
+    for it in re.split(r'\n\.IP ', keys_sec)[1:]:
+        m = re.match(r'"\\fI(\w+)\\fR"', it)
+        if m:
+            doc[m.group(1)] = bool(re.search(r'^\.BR \(global\)', it, re.M))
+    if not doc:
+        raise TranslateError('%s: no key entries found' % rel)
+    out += '\n(* (setting, the code looks it up with getsettingglobal(), doc/man/filterconf.5 marks it "(global)") for every setting\n'
+    out += '   that is both read with a literal key in qsmtpd/filters/*.c or smtp_rcpt and described in the man page.\n'
+    out += '   read by the code but not in the man page: %s; in the man page but not read that way: %s *)\n' % (
+        ' '.join(sorted(set(code) - set(doc))) or '-', ' '.join(sorted(set(doc) - set(code))) or '-')
+    out += 'Definition KEY_TABLE : list (list N * bool * bool) := [\n'
+    rows = []
+    for k in sorted(set(code) & set(doc)):
+        rows.append('  (%s, %s, %s) (* %s *)' % (coq_bytes([ord(c) for c in k]), 'true' if code[k] else 'false', 'true' if doc[k] else 'false', k))
+    out += ';\n'.join(rows).replace(' (* ', ' (* ') + '\n].\n'
     return out
 
 
